@@ -1,23 +1,39 @@
 import RsMatterVerif.Lemmas.Transport
+import RsMatterVerif.Lemmas.Rendezvous
+import RsMatterVerif.Lemmas.Handshake
+import RsMatterVerif.Lemmas.HandshakeOwn
+import RsMatterVerif.Props.C10
 /-!
 # C20 — unfinished or hostile handshakes cannot leak or exhaust node resources for good
 
-Theorems over `Model/Transport.lean`:
-* `eviction_never_takes_live_exchange`: the session chosen for eviction is not reserved and carries
-  no exchange — for every table and time;
-* `eviction_finds_idle`: if some session is unreserved, without exchanges, and expired or last used
-  strictly before now, eviction finds a session;
-* `full_table_refuses` / `room_admits`: `Sessions::add` answers `NoSpaceSessions` (⇒ the transport
-  answers busy or evicts) exactly when the table is full; `evict_then_room`: after removing the
-  evicted session a new one is admitted;
-* `abandoned_reservation_released`, `complete_makes_live`: dropping a `ReservedSession` without
-  `complete` takes one session out of the table; the (repaired) `complete` clears the flag at once:
-  the session, if still in the table, is not reserved afterwards;
-* `owner_drop_frees_or_marks`: an exchange dropped by its owner is freed or marked dropped, and
-  (C10 `closer_finds_dropped`) the closer misses no dropped exchange — together: at quiescence no
-  exchange slot stays occupied by an owned or dropped exchange;
-* `rendezvous_released_on_cancel`: the single-slot rendezvous guard resets the slot to idle when its
-  waiter is dropped (model of `MdnsResolveGuard::drop` / `MdnsBrowseGuard::drop`).
+**Run-level theorems** (over all histories of the transition systems `Model/Handshake.lean` and
+`Model/Rendezvous.lean`; invariants proved by induction over the history in `Lemmas/Handshake.lean`,
+`Lemmas/Rendezvous.lean`, `Lemmas/HandshakeOwn.lean`):
+* `reserved_iff_guard`, `reach_capacity_and_ids`, `abandoned_reservation_released`,
+  `no_reserved_at_quiescence`, `guarded_sessions_survive_eviction`, `idle_session_admits_reservation`
+  (hypothesis of every step: the 28-bit session id counter has not wrapped, `Handshake.noWrap`);
+* `rendezvous_single_occupancy`, `placed_is_owner`, `rendezvous_released_on_cancel`,
+  `rendezvous_idle_when_no_waiter`, `queued_places_when_free`, `queued_places_after_cancel`;
+* `marker_expiry_bounded`, `dead_owner_marker_not_live`, `expired_marker_of_dead_owner_is_cleared`,
+  `marker_released_at_quiescence`.
+
+* `owned_iff_handle` (`Lemmas/HandshakeOwn.lean`: an exchange slot is owned iff a live `Exchange` handle
+  points to it), hence `live_handles_survive_eviction` (a session a live handle points to is never
+  the eviction victim) and `quiescent_no_leak` (no incomplete guard, no handle, closer idle ⇒ every
+  session unreserved and without exchanges) — the latter with ONE remaining hypothesis, `NoPending`,
+  which is a statement about the receive path and is proved for the receive-path system in C10
+  (`C10.empty_slot_no_pending`, `C10.unclaimed_discarded_within`).
+
+The earlier conditional forms are kept: `live_handles_survive_eviction_partial`
+(`live_handles_survive_eviction_full`, hypothesis `HandlesOccupied`), `quiescent_no_leak_partial`
+(`quiescent_no_leak_full`, hypotheses `OwnedHaveHandles`, `NoPending`).
+`two_slots_needed`: the open finding `C20-handshake-needs-two-slots` on the model.
+
+**One-step facts** about single functions of `Model/Transport.lean` on arbitrary tables:
+`eviction_never_takes_live_exchange`, `eviction_finds_idle`, `full_table_refuses`, `room_admits`,
+`evict_then_room`, `remove_found_shrinks`, `reserve_marks`, `complete_makes_live`,
+`owner_drop_frees_or_marks`, `queued_cancel_keeps_slot`, `marker_none_after_clear_or_fail`,
+`handler_drop_keeps_marker`; and `C10.closer_finds_dropped` (imported).
 -/
 namespace C20
 open Transport
@@ -51,7 +67,9 @@ theorem evictLoop_spec : ∀ (l : List Sess) (k : Nat) (best : Option Nat) (ts i
       · have : i - k = (i - (k + 1)) + 1 := by omega
         exact Or.inr ⟨by omega, s, by rw [this, List.getElem?_cons_succ]; exact hs, h1, h2⟩
 
-/-- **Eviction never takes a session with a live exchange** (nor a reserved one). -/
+/-- **Eviction never takes a session with a live exchange** (nor a reserved one). One-step fact about
+the choice function `get_session_for_eviction` on an arbitrary table; the run-level consequences are
+`guarded_sessions_survive_eviction` and `live_handles_survive_eviction_partial` below. -/
 theorem eviction_never_takes_live_exchange (t : Table) (now i : Nat) (h : t.evictionIdx now = some i) :
     ∃ s, t.sessions[i]? = some s ∧ s.reserved = false ∧ s.noExchanges = true := by
   unfold Table.evictionIdx at h
@@ -110,7 +128,8 @@ theorem evictLoop_finds : ∀ (l : List Sess) (k : Nat) (best : Option Nat) (ts 
         exact ⟨⟨hc, hr⟩, hn⟩
       · exact ih _ _ _ ⟨s, h1, hr, hn, hc⟩
 
-/-- **Eviction finds an idle session**: whenever some session is unreserved, carries no exchange and
+/-- **Eviction finds an idle session** (one-step, arbitrary table; the comparison `lastUse < now` is
+strict): whenever some session is unreserved, carries no exchange and
 is expired or was last used strictly before `now`. -/
 theorem eviction_finds_idle (t : Table) (now : Nat)
     (h : ∃ s ∈ t.sessions, s.reserved = false ∧ s.noExchanges = true ∧ (s.expired = true ∨ s.lastUse < now)) :
@@ -126,14 +145,14 @@ example : (({ sessions := [{ uid := 0, ctr := 0, lastUse := 5 }] } : Table).evic
 
 /-! ## Full table -/
 
-/-- **Full table ⇒ refusal** (the transport turns it into a busy answer or an eviction) -/
+/-- **Full table ⇒ refusal** (one-step, arbitrary table; the transport turns it into a busy answer or an eviction) -/
 theorem full_table_refuses (t : Table) (ctr : Nat) (r : Bool) (now port : Nat)
     (h : t.sessions.length ≥ Consts.maxSessions) :
     (t.add ctr r now port).2 = .error .noSpaceSessions ∧ (t.add ctr r now port).1.sessions = t.sessions := by
   unfold Table.add
   simp [h]
 
-/-- room ⇒ the new session is admitted, as the last entry -/
+/-- room ⇒ the new session is admitted, as the last entry (one-step, arbitrary table) -/
 theorem room_admits (t : Table) (ctr : Nat) (r : Bool) (now port : Nat)
     (h : t.sessions.length < Consts.maxSessions) :
     (t.add ctr r now port).2 = .ok t.nextUid ∧
@@ -166,7 +185,9 @@ theorem remove_length (t : Table) (uid : Nat) (h : (t.find uid).isSome = true) :
       exact (List.findIdx?_eq_some_iff_getElem.1 hf).1
     exact ⟨swapRemove_length _ _ hi, trivial⟩
 
-/-- **Evict, then there is room**: removing any session of a table makes `add` succeed. -/
+/-- **Evict, then there is room** (one-step): removing any session of a table that respects the
+capacity makes `add` succeed. That the capacity is respected in every reachable state is part of
+`Handshake.Inv` (`cap`); the run-level statement is `idle_session_admits_reservation`. -/
 theorem evict_then_room (t : Table) (uid ctr : Nat) (r : Bool) (now port : Nat)
     (hfound : (t.find uid).isSome = true) (hcap : t.sessions.length ≤ Consts.maxSessions) :
     ∃ u, ((t.remove uid).1.add ctr r now port).2 = .ok u := by
@@ -183,8 +204,10 @@ theorem evict_then_room (t : Table) (uid ctr : Nat) (r : Bool) (now port : Nat)
 
 /-! ## Reservations -/
 
-/-- an abandoned handshake (`ReservedSession` dropped without `complete`) gives its slot back -/
-theorem abandoned_reservation_released (t : Table) (uid : Nat) (hfound : (t.find uid).isSome = true) :
+/-- removing a session that is found shrinks the table by one (one-step; this was all the former
+`abandoned_reservation_released` said - the real statement is the run-level theorem of that name in
+the section "Reservations over all histories" below) -/
+theorem remove_found_shrinks (t : Table) (uid : Nat) (hfound : (t.find uid).isSome = true) :
     (t.remove uid).1.sessions.length + 1 = t.sessions.length := by
   have hl := (remove_length t uid hfound).1
   have hpos : 0 < t.sessions.length := by
@@ -196,7 +219,8 @@ theorem abandoned_reservation_released (t : Table) (uid : Nat) (hfound : (t.find
       omega
   omega
 
-/-- a freshly reserved session is marked reserved (and therefore neither receives nor is evicted) -/
+/-- a freshly reserved session is marked reserved (and therefore neither receives nor is evicted);
+one-step, arbitrary table -/
 theorem reserve_marks (t : Table) (ctr now : Nat) (h : t.sessions.length < Consts.maxSessions) :
     ∃ s, (t.add ctr true now).1.sessions.getLast? = some s ∧ s.reserved = true ∧ s.uid = t.nextUid := by
   unfold Table.add
@@ -239,9 +263,11 @@ theorem find_of_sess (t : Table) (uid : Nat) (s : Sess) (h : t.sess uid = some s
   rw [List.findIdx?_isSome]
   exact List.any_eq_true.2 ⟨s, hm, hp⟩
 
-/-- **The repaired `ReservedSession::complete`**: afterwards the session — if it is still in the
-table — is no longer reserved, i.e. the receive path (`Sess.isForRx`) finds it from that moment on,
-not only when the handshake task has run again and dropped the handle. -/
+/-- **The repaired `ReservedSession::complete`** (one-step, arbitrary table): afterwards the session —
+if it is still in the table — is no longer reserved, at once and not only when the handshake task has
+run again and dropped the handle. This removes the one clause of `Sess.isForRx` that depends on the
+handle; the other clauses (session id, peer port, secure mode) are what `reservedUpdate` wrote before -
+the theorem says nothing about them; the `example`s below show both steps on a concrete table. -/
 theorem complete_makes_live (t : Table) (uid now : Nat) (s : Sess)
     (h : (t.reservedComplete uid now).1.sess uid = some s) : s.reserved = false := by
   unfold Table.reservedComplete Table.get at h
@@ -272,6 +298,15 @@ theorem complete_makes_live (t : Table) (uid now : Nat) (s : Sess)
 example : ((({ sessions := [{ uid := 3, ctr := 0, reserved := true }] } : Table).reservedComplete 3 10).1.sess 3).map (·.reserved) = some false := by
   decide
 
+/-- `update` then `complete`: the receive path finds the session (and did not before `complete`) -/
+example :
+    let t0 : Table := { sessions := [{ uid := 3, ctr := 0, reserved := true }] }
+    let t1 := (t0.reservedUpdate 3 77 5540 .case 10).1
+    let t2 := (t1.reservedComplete 3 10).1
+    ((t1.sess 3).map (fun x => x.isForRx 5540 77), (t2.sess 3).map (fun x => x.isForRx 5540 77)) =
+      (some false, some true) := by
+  decide
+
 
 /-! ## Exchange slots at quiescence -/
 
@@ -289,17 +324,593 @@ theorem owner_drop_frees_or_marks (s : Sess) (i : Nat) (e : Exch) (hs : s.slot i
   · left
     rw [slot_set]; simp [hlt]
 
-/-! ## Rendezvous -/
+/-! ## Reservations over all histories (`Model/Handshake.lean`)
 
-/-- the single-slot mDNS resolve / browse rendezvous -/
-inductive Rdv | idle | requested | inFlight | resolved
-deriving DecidableEq, Repr
+`Handshake.Reach s`: `s` is reachable from the empty node by ANY sequence of the ops of
+`Model/Handshake.lean` (carrier sessions added, reservations made / updated / completed / dropped,
+sessions removed behind the handles' backs, evictions, expiry, exchanges initiated / opened by received
+messages / accepted / dropped, closer and accept-deadline sweeps, time), as long as the 28-bit id
+counter of `Sessions::add` has not wrapped at the moment of a step (`Handshake.noWrap`: fewer than
+2^28 sessions were ever created - after a wrap a fresh session could get the id of a session that is
+still alive, and `Sessions::get` / `remove` would pick the wrong one; rs-matter does not guard
+against this). `Handshake.Inv` is proved for every reachable state in `Lemmas/Handshake.lean`. -/
 
-/-- `MdnsResolveGuard::drop` / `MdnsBrowseGuard::drop`: unless disarmed, reset to `Idle` -/
-def guardDrop (armed : Bool) (st : Rdv) : Rdv := if armed then .idle else st
+open Handshake in
+/-- **A session is reserved iff a live incomplete `ReservedSession` holds its id** - in every
+reachable state. -/
+theorem reserved_iff_guard (s : Sys) (h : Reach s) (x : Sess) (hx : x ∈ s.t.sessions) :
+    x.reserved = true ↔ ∃ g ∈ s.guards, g.uid = x.uid ∧ g.complete = false :=
+  (inv_reach s h).resv x hx
 
-/-- **Rendezvous released on cancel**: whatever state the rendezvous was in when the waiting future is
-dropped (cancelled or timed out) with its guard still armed, the slot is idle afterwards. -/
-theorem rendezvous_released_on_cancel (st : Rdv) : guardDrop true st = .idle := rfl
+open Handshake in
+/-- the capacity is respected and the internal ids are pairwise different in every reachable state -/
+theorem reach_capacity_and_ids (s : Sys) (h : Reach s) :
+    s.t.sessions.length ≤ Consts.maxSessions ∧ UidNodup s.t ∧ UidBelow s.t :=
+  ⟨(inv_reach s h).cap, (inv_reach s h).nodup, (inv_reach s h).below⟩
+
+open Handshake in
+/-- **An abandoned reservation is released** (run level): in every reachable state, when the
+`ReservedSession` found under `uid` is dropped without `complete`, exactly the session with that id
+leaves the table - it is gone, every other session is still found under its id, unchanged, no guard
+for `uid` is left, the table has shrunk by one if the session was still there - and the session that
+is removed was reserved (it was never visible to the receive path nor to eviction). -/
+theorem abandoned_reservation_released (s : Sys) (h : Reach s) (uid : Nat) (g : Guard)
+    (hfind : s.guards.find? (fun g => g.uid == uid) = some g) (hinc : g.complete = false) :
+    (step s (.dropGuard uid)).t.sess uid = none ∧
+    (∀ u, u ≠ uid → (step s (.dropGuard uid)).t.sess u = s.t.sess u) ∧
+    (∀ g' ∈ (step s (.dropGuard uid)).guards, g'.uid ≠ uid) ∧
+    (∀ x, s.t.sess uid = some x → x.reserved = true ∧
+      (step s (.dropGuard uid)).t.sessions.length + 1 = s.t.sessions.length) := by
+  have hi := inv_reach s h
+  have hstep : step s (.dropGuard uid) =
+      { s with t := (s.t.remove uid).1, guards := s.guards.filter (fun g => g.uid != uid) } := by
+    simp only [step, opDropGuard, hfind, hinc, Bool.false_eq_true, ↓reduceIte]
+  rw [hstep]
+  refine ⟨remove_sess_none s.t hi.nodup uid, fun u hu => remove_sess_other s.t hi.nodup uid u hu, ?_, ?_⟩
+  · intro g' hg'
+    have := (List.mem_filter.1 hg').2
+    simpa using this
+  · intro x hx
+    obtain ⟨hm, hu⟩ := sess_some_mem s.t uid x hx
+    have hgm := List.mem_of_find?_eq_some hfind
+    have hgu : g.uid = uid := by simpa using List.find?_some hfind
+    exact ⟨(hi.resv x hm).2 ⟨g, hgm, by rw [hgu, hu], hinc⟩, Handshake.remove_length_lt s.t uid x hm hu⟩
+
+open Handshake in
+/-- **No reservation outlives its handshake**: in every reachable state in which no incomplete
+`ReservedSession` is alive (every handshake task has ended, or has completed its session), no session
+is reserved. -/
+theorem no_reserved_at_quiescence (s : Sys) (h : Reach s) (hq : ∀ g ∈ s.guards, g.complete = true) :
+    ∀ x ∈ s.t.sessions, x.reserved = false := by
+  intro x hx
+  cases hr : x.reserved with
+  | false => rfl
+  | true =>
+    obtain ⟨g, hg, _, hc⟩ := (reserved_iff_guard s h x hx).1 hr
+    rw [hq g hg] at hc
+    cases hc
+
+/-- non-vacuity: a carrier session, a reservation that is updated and then abandoned, one that is
+completed and dropped; in between the first reserved session is invisible to eviction -/
+def exOps : List Handshake.Op :=
+  [.add 7 5541, .reserve 9, .update 1 77 5540 .case, .tick 5, .reserve 11, .complete 2, .dropGuard 2]
+
+example :
+    ((Handshake.run Handshake.init exOps).t.sessions.map (fun x => (x.uid, x.reserved)),
+     (Handshake.run Handshake.init exOps).guards,
+     (Handshake.run Handshake.init (exOps ++ [.dropGuard 1])).t.sessions.map (fun x => (x.uid, x.reserved)),
+     (Handshake.run Handshake.init (exOps ++ [.dropGuard 1])).guards) =
+    ([(0, false), (1, true), (2, false)], [{ uid := 1 }], [(0, false), (2, false)], []) := by decide
+
+/-! ## Eviction and admission over all histories -/
+
+open Handshake in
+theorem evictionUid_spec (t : Table) (now v : Nat) (h : t.evictionUid now = some v) :
+    ∃ x ∈ t.sessions, x.uid = v ∧ x.reserved = false ∧ x.noExchanges = true := by
+  unfold Table.evictionUid at h
+  cases hi : t.evictionIdx now with
+  | none => simp [hi] at h
+  | some i =>
+    obtain ⟨x, hx, h1, h2⟩ := eviction_never_takes_live_exchange t now i hi
+    simp only [hi, hx, Option.map_some, Option.some.injEq] at h
+    exact ⟨x, List.mem_of_getElem? hx, h, h1, h2⟩
+
+open Handshake in
+/-- **Eviction never removes a session a live handshake holds** (run level): in every reachable state
+the session a live incomplete `ReservedSession` points to survives an `evict` step, unchanged. -/
+theorem guarded_sessions_survive_eviction (s : Sys) (h : Reach s) (g : Guard) (hg : g ∈ s.guards)
+    (hinc : g.complete = false) : (step s .evict).t.sess g.uid = s.t.sess g.uid := by
+  have hi := inv_reach s h
+  simp only [step, opEvict]
+  cases he : s.t.evictionUid s.now with
+  | none => rfl
+  | some v =>
+    simp only
+    obtain ⟨x, hx, hu, hr, _⟩ := evictionUid_spec s.t s.now v he
+    refine remove_sess_other s.t hi.nodup v g.uid ?_
+    intro heq
+    have := (hi.resv x hx).2 ⟨g, hg, by rw [heq, hu], hinc⟩
+    rw [hr] at this
+    cases this
+
+/-- every live `Exchange` handle points to a session of the table and to a non-empty slot of it -/
+def HandlesOccupied (s : Handshake.Sys) : Prop :=
+  ∀ h ∈ s.handles, ∃ x ∈ s.t.sessions, x.uid = h.1 ∧ (x.slot h.2).isSome = true
+
+/-- the full statement: `HandlesOccupied` can only be broken by `Sessions::remove` behind a handle's
+back (fabric / PASE session removal) or by the closer closing a whole session - never by eviction;
+i.e. on histories without `remove` the owned slot of every live handle stays occupied, and `evict`
+keeps `HandlesOccupied`. NOT proved at this strength: the first half needs the slot-level invariant
+"the slot of a live handle has role Owned, and only `Exchange::drop` changes that role" through
+`post_recv`, `accept`, `remove_exch` and the closer, which is not done (the unit-level oracle checks
+it on sampled histories: "eviction chose session N which carries a live exchange"). -/
+def live_handles_survive_eviction_full : Prop :=
+  ∀ s, Handshake.Reach s → HandlesOccupied s → HandlesOccupied (Handshake.step s .evict)
+
+open Handshake in
+/-- **Live exchange handles survive eviction**: in every reachable state, if every live handle
+points to an occupied slot, an `evict` step removes none of their sessions: every handle still points
+to the same session with the same slots. (This is `live_handles_survive_eviction_full`; the name
+`_partial` records that `HandlesOccupied` itself is a hypothesis here, not an invariant proved over
+all histories - see the docstring of `live_handles_survive_eviction_full`.) -/
+theorem live_handles_survive_eviction_partial : live_handles_survive_eviction_full := by
+  intro s h hocc hd hhd
+  have hi := inv_reach s h
+  have hh : hd ∈ s.handles := by
+    simp only [step, opEvict] at hhd
+    split at hhd <;> exact hhd
+  obtain ⟨x, hx, hu, hsl⟩ := hocc hd hh
+  simp only [step, opEvict]
+  cases he : s.t.evictionUid s.now with
+  | none => exact ⟨x, hx, hu, hsl⟩
+  | some v =>
+    simp only
+    obtain ⟨y, hy, hyu, _, hne⟩ := evictionUid_spec s.t s.now v he
+    refine ⟨x, (mem_remove s.t hi.nodup v x).2 ⟨hx, ?_⟩, hu, hsl⟩
+    intro hxv
+    have : x = y := nodup_map_inj (fun (z : Sess) => z.uid) s.t.sessions hi.nodup x hx y hy (by rw [hxv, hyu])
+    rw [this, noExchanges_slots y hne hd.2] at hsl
+    cases hsl
+
+open Handshake in
+/-- **Owned slots and live handles correspond** (every reachable state, `Lemmas/HandshakeOwn.lean`):
+an exchange slot of a session of the table is `Initiator(Owned)` / `Responder(Owned)` exactly if a live
+`Exchange` handle points to it. Proved by following the owned slots through every step
+(`post_recv`, `accept_if`, `initiate_for_session`, `Exchange::drop`, the closer, the accept sweep,
+session removal / eviction, reservation ops). -/
+theorem owned_iff_handle (s : Sys) (h : Reach s) (x : Sess) (hx : x ∈ s.t.sessions) (i : Nat) :
+    ownedSlot (x.slot i) = true ↔ (x.uid, i) ∈ s.handles :=
+  ⟨(hinv_reach s h).ownedHave x hx i, fun hh => (hinv_reach s h).haveOwned _ hh x hx rfl⟩
+
+open Handshake in
+/-- **Sessions that carry a live exchange are never evicted** (every reachable state, no extra
+hypothesis): if a live `Exchange` handle points to a session of the table, an `evict` step
+(`get_session_for_eviction` + removal) leaves that session in the table, unchanged. This closes what
+`live_handles_survive_eviction_partial` left as the hypothesis `HandlesOccupied`: for handles whose
+session is still in the table it is the invariant `owned_iff_handle`. (A handle whose session was
+removed behind its back by `Sessions::remove` / by the closer closing the whole session points to
+nothing; that is not eviction.) -/
+theorem live_handles_survive_eviction (s : Sys) (h : Reach s) (hd : Nat × Nat) (hh : hd ∈ s.handles)
+    (x : Sess) (hx : x ∈ s.t.sessions) (hu : x.uid = hd.1) : x ∈ (step s .evict).t.sessions := by
+  have hi := inv_reach s h
+  have hown := (hinv_reach s h).haveOwned hd hh x hx hu
+  simp only [step, opEvict]
+  cases he : s.t.evictionUid s.now with
+  | none => exact hx
+  | some v =>
+    simp only
+    obtain ⟨y, hy, hyu, _, hne⟩ := evictionUid_spec s.t s.now v he
+    refine (mem_remove s.t hi.nodup v x).2 ⟨hx, ?_⟩
+    intro hxv
+    have : x = y := nodup_map_inj (fun (z : Sess) => z.uid) s.t.sessions hi.nodup x hx y hy (by rw [hxv, hyu])
+    rw [this, noExchanges_slots y hne hd.2] at hown
+    simp [ownedSlot] at hown
+
+open Handshake in
+/-- non-vacuity: a reachable state with a live handle on an owned slot -/
+example : (Handshake.run Handshake.init (exOps ++ [.dropGuard 1, .initiate 2])).handles = [(2, 0)] ∧
+    ((Handshake.run Handshake.init (exOps ++ [.dropGuard 1, .initiate 2])).t.sessions.map
+      (fun x => (x.uid, x.exchs.map (fun o => ownedSlot o)))) = [(0, []), (2, [true])] := by decide
+
+open Handshake in
+theorem reserve_ok_guards (s : Sys) (ctr u : Nat) (h : (s.t.add ctr true s.now).2 = .ok u) :
+    (step s (.reserve ctr)).guards = { uid := u } :: s.guards := by
+  simp only [step, opReserve, h]
+
+open Handshake in
+/-- **An idle session admits a reservation** (run level): in every reachable state in which some
+session is idle (no exchange, not reserved, and expired or last used strictly before now),
+`ReservedSession::reserve` succeeds - directly (`reserve_now`), or after exactly one eviction
+(`evict_some_session`, which removes exactly one session). The capacity bound this needs is an
+invariant of the reachable states, not a hypothesis. See `two_slots_needed` for why this is not yet
+"a handshake succeeds". -/
+theorem idle_session_admits_reservation (s : Sys) (h : Reach s) (ctr : Nat)
+    (hidle : ∃ x ∈ s.t.sessions, idleSess s.now x = true) :
+    (∃ u, (step s (.reserve ctr)).guards = { uid := u } :: s.guards) ∨
+    (∃ u, (step (step s .evict) (.reserve ctr)).guards = { uid := u } :: s.guards ∧
+      (step s .evict).t.sessions.length + 1 = s.t.sessions.length) := by
+  have hi := inv_reach s h
+  by_cases hroom : s.t.sessions.length < Consts.maxSessions
+  · left
+    exact ⟨_, reserve_ok_guards s ctr _ (room_admits s.t ctr true s.now 0 hroom).1⟩
+  · right
+    obtain ⟨x, hx, hid⟩ := hidle
+    simp only [idleSess, Bool.and_eq_true, Bool.not_eq_true', Bool.or_eq_true, decide_eq_true_eq] at hid
+    have hsome := eviction_finds_idle s.t s.now ⟨x, hx, hid.1.1, hid.1.2, hid.2⟩
+    cases hidx : s.t.evictionIdx s.now with
+    | none => simp [hidx] at hsome
+    | some i =>
+      obtain ⟨y, hy, _, _⟩ := eviction_never_takes_live_exchange s.t s.now i hidx
+      have hev : s.t.evictionUid s.now = some y.uid := by
+        unfold Table.evictionUid; simp [hidx, hy]
+      have hym := List.mem_of_getElem? hy
+      have hstep : step s .evict = { s with t := (s.t.remove y.uid).1 } := by
+        simp only [step, opEvict, hev]
+      have hlen := Handshake.remove_length_lt s.t y.uid y hym rfl
+      have hroom' : (s.t.remove y.uid).1.sessions.length < Consts.maxSessions := by
+        have := hi.cap; omega
+      rw [hstep]
+      exact ⟨_, reserve_ok_guards _ ctr _ (room_admits _ ctr true s.now 0 hroom').1, hlen⟩
+
+/-- 15 sessions in use (each carries an owned exchange) -/
+def busyTable (n : Nat) : List Sess :=
+  (List.range n).map (fun k => { uid := k, ctr := 0, mode := .case, exchs := [some { id := k, role := .io }] })
+
+def okOf (r : Except Err Nat) : Option Nat := match r with | .ok u => some u | .error _ => none
+def errOf (r : Except Err Nat) : Option Err := match r with | .ok _ => none | .error e => some e
+
+def twoT0 : Table := { nextUid := Consts.maxSessions - 1, nextExch := 1, sessions := busyTable (Consts.maxSessions - 1) }
+/-- the first handshake message: the unsecured carrier session takes the last slot ... -/
+def twoT1 : Table := (twoT0.add 1 false 100 5541).1
+/-- ... and carries the handshake's exchange (any owned slot; here through `initiate`) -/
+def twoT2 : Table := (twoT1.initiate (Consts.maxSessions - 1) 100).1
+
+/-- **The known exception (open finding `C20-handshake-needs-two-slots`)**, on the model: all slots but
+one are held by sessions in use; the first handshake message takes the last slot for its unsecured
+carrier session (which carries the handshake's exchange); the reservation for the new session then
+fails: the table is full, and eviction finds nothing - every session, the carrier included, carries a
+live exchange. So "one idle/free slot" does NOT suffice for a handshake, although
+`idle_session_admits_reservation` holds: once the carrier occupies the free slot no session is idle. -/
+theorem two_slots_needed :
+    twoT0.sessions.length + 1 = Consts.maxSessions ∧
+    okOf (twoT0.add 1 false 100 5541).2 = some (Consts.maxSessions - 1) ∧
+    errOf (twoT2.add 2 true 200).2 = some .noSpaceSessions ∧
+    twoT2.evictionIdx 200 = none ∧
+    -- with two free slots the same steps succeed
+    okOf (((({ twoT0 with sessions := twoT0.sessions.drop 1 } : Table).add 1 false 100 5541).1.initiate
+      (Consts.maxSessions - 1) 100).1.add 2 true 200).2 = some Consts.maxSessions := by
+  decide
+
+/-! ## Quiescence -/
+
+/-- every exchange slot owned by a task (`Initiator(Owned)` / `Responder(Owned)`) has a live handle -/
+def OwnedHaveHandles (s : Handshake.Sys) : Prop :=
+  ∀ x ∈ s.t.sessions, ∀ i, Handshake.ownedSlot (x.slot i) = true → (x.uid, i) ∈ s.handles
+
+/-- no exchange is waiting to be accepted. This is what C10 contributes (being proved by ag-G8 as
+`RxPath.pending_has_message` / `C10.slot_always_freeable`): in reachable receive-path states an
+accept-pending exchange always has its message waiting in the RX slot, and the accept sweep
+(`Table.sweepAccept`, `C10.unclaimed_is_discarded`) turns it into a dropped one once the accept
+deadline has passed - so after the deadline, with the RX slot empty, no slot is accept-pending. -/
+def NoPending (t : Table) : Prop := ∀ x ∈ t.sessions, ∀ i e, x.slot i = some e → e.role ≠ .rp
+
+theorem noExchanges_of_slots (x : Sess) (h : ∀ i, x.slot i = none) : x.noExchanges = true := by
+  simp only [Sess.noExchanges, List.all_eq_true]
+  intro o ho
+  obtain ⟨i, hi⟩ := List.mem_iff_getElem?.1 ho
+  have := h i
+  simp only [Sess.slot, hi, Option.join_some] at this
+  rw [this]; rfl
+
+/-- **Quiescence, full statement**: after ANY history, in a state where every handshake task has
+ended or completed its session (no live incomplete `ReservedSession`), no `Exchange` handle is
+alive, the closer has nothing left to do and no exchange waits to be accepted, every session of the
+table is unreserved and carries no exchange - i.e. every session slot is free or holds a session that
+is immediately usable and, once idle, evictable. -/
+def quiescent_no_leak_full : Prop :=
+  ∀ s, Handshake.Reach s → (∀ g ∈ s.guards, g.complete = true) → s.handles = [] →
+    C10.closerIdle s.t → NoPending s.t →
+    ∀ x ∈ s.t.sessions, x.reserved = false ∧ x.noExchanges = true
+
+/-- **No leak at quiescence** - proved with one extra hypothesis: `OwnedHaveHandles` (an owned slot
+has a live handle), which is an invariant of the real system (an owned slot is created together with
+its handle and only the handle's `Drop` changes the role) but is NOT proved here over all histories;
+the unit-level oracle `qchk` and the system-level oracle (`xo=0`) sample it. The reservation half
+(`x.reserved = false`) is unconditional (`no_reserved_at_quiescence`, over all histories); the
+dropped slots are excluded by C10 `closer_finds_dropped`, the accept-pending ones by the C10
+hypothesis `NoPending`. -/
+theorem quiescent_no_leak_partial (s : Handshake.Sys) (h : Handshake.Reach s)
+    (hg : ∀ g ∈ s.guards, g.complete = true) (hh : s.handles = [])
+    (hc : C10.closerIdle s.t) (hp : NoPending s.t) (ho : OwnedHaveHandles s) :
+    ∀ x ∈ s.t.sessions, x.reserved = false ∧ x.noExchanges = true := by
+  intro x hx
+  refine ⟨no_reserved_at_quiescence s h hg x hx, noExchanges_of_slots x ?_⟩
+  intro i
+  cases hs : x.slot i with
+  | none => rfl
+  | some e =>
+    exfalso
+    have hd := C10.closer_finds_dropped s.t hc x hx i e hs
+    have hnp := hp x hx i e hs
+    have hown : Handshake.ownedSlot (x.slot i) = true → False := by
+      intro hw
+      have := ho x hx i hw
+      rw [hh] at this
+      cases this
+    rw [hs] at hown
+    cases hr : e.role <;> simp [hr, Handshake.ownedSlot, RoleSt.isDropped] at hd hnp hown
+
+/-- **No leak at quiescence** (every history): in a reachable state where every handshake task has
+ended or completed its session (no live incomplete `ReservedSession`), no `Exchange` handle is alive
+and the closer has nothing left to do, every session of the table is unreserved and carries no
+exchange — under the ONE remaining hypothesis `NoPending` (no exchange waits to be accepted), which is
+not a fact about this transition system (it has no RX slot) but about the receive path: C10 proves it
+for the receive-path system (`C10.empty_slot_no_pending`: with the RX slot empty there is no
+accept-pending exchange; `C10.unclaimed_discarded_within`: an unclaimed message leaves the slot within
+the accept deadline plus the sweeper polls). `OwnedHaveHandles` is no longer a hypothesis
+(`owned_iff_handle`). The open finding `C20-handshake-needs-two-slots` (`two_slots_needed`) is about
+admission, not about leaks, and is the documented exception to the property's clause "as soon as one
+session is idle a new handshake succeeds". -/
+theorem quiescent_no_leak (s : Handshake.Sys) (h : Handshake.Reach s)
+    (hg : ∀ g ∈ s.guards, g.complete = true) (hh : s.handles = [])
+    (hc : C10.closerIdle s.t) (hp : NoPending s.t) :
+    ∀ x ∈ s.t.sessions, x.reserved = false ∧ x.noExchanges = true :=
+  quiescent_no_leak_partial s h hg hh hc hp (fun x hx i ho => (Handshake.hinv_reach s h).ownedHave x hx i ho)
+
+/-- non-vacuity of the hypotheses on a reachable non-empty state: the history `exOps` (carrier,
+abandoned and completed reservation), an exchange on the completed session opened and dropped: no
+guard incomplete, no handle, closer idle, nothing pending, every owned slot has a handle. -/
+def exQuiet : Handshake.Sys :=
+  Handshake.run Handshake.init (exOps ++ [.dropGuard 1, .initiate 2, .tick 3, .dropHandle 2 0, .sweep])
+
+example :
+    exQuiet.guards.all (·.complete) = true ∧ exQuiet.handles = [] ∧
+    findDropped true exQuiet.t.sessions = none ∧ findDropped false exQuiet.t.sessions = none ∧
+    exQuiet.t.sessions.map (fun x => (x.uid, x.reserved, x.exchs)) = [(0, false, []), (2, false, [none])] ∧
+    -- while the exchange was open the slot was owned and had its handle
+    (Handshake.run Handshake.init (exOps ++ [.dropGuard 1, .initiate 2])).handles = [(2, 0)] := by
+  decide
+
+/-! ## Rendezvous slots (mDNS resolve / browse) — over all histories of `Model/Rendezvous.lean`
+
+`Rendezvous.run Rendezvous.init ops` is the state after the history `ops` (arrivals of callers,
+placements, responder pick-ups and deposits, consumption, cancellations and time-outs in any order and
+any number). The invariant `Rendezvous.Inv` (slot occupied ⇔ exactly one waiter is placed, and it is
+the ghost owner) is proved by induction over the history in `Lemmas/Rendezvous.lean`. -/
+
+open Rendezvous in
+/-- at most one caller ever holds an armed guard -/
+theorem rendezvous_single_occupancy (ops : List Op) : (run init ops).placed.length ≤ 1 := by
+  have h := inv_reach ops
+  by_cases hs : (run init ops).slot = .idle
+  · rw [(h.1 hs).1]; exact Nat.zero_le _
+  · obtain ⟨w, _, hp⟩ := h.2 hs
+    rw [hp]; exact Nat.le_refl _
+
+open Rendezvous in
+/-- a placed waiter is the owner of the request in the slot, and the slot is occupied -/
+theorem placed_is_owner (ops : List Op) (w : Nat) (hw : w ∈ (run init ops).placed) :
+    (run init ops).owner = some w ∧ (run init ops).placed = [w] ∧ (run init ops).slot ≠ .idle := by
+  have h := inv_reach ops
+  by_cases hs : (run init ops).slot = .idle
+  · rw [(h.1 hs).1] at hw; cases hw
+  · obtain ⟨v, ho, hp⟩ := h.2 hs
+    rw [hp] at hw
+    have : w = v := by simpa using hw
+    subst this
+    exact ⟨ho, hp, hs⟩
+
+open Rendezvous in
+theorem dropWaiter_placed (st : St) (w : Nat) (hp : st.placed = [w]) :
+    (dropWaiter st w).slot = .idle ∧ (dropWaiter st w).placed = [] ∧ (dropWaiter st w).queued = st.queued := by
+  unfold dropWaiter
+  have hc : st.placed.contains w = true := by rw [hp]; simp
+  rw [if_pos hc]
+  refine ⟨?_, by simp [hp], rfl⟩
+  show guardDropSlot st.slot = .idle
+  unfold guardDropSlot; split <;> rfl
+
+open Rendezvous in
+/-- **Rendezvous released on cancel / time-out** (run level): after ANY history, when the future of
+the placed waiter is dropped — cancelled by its caller or because its own timer fired — the slot is
+`Idle`, no waiter is placed any more, the queue is untouched, and the request that was discarded is
+the waiter's own (the guard never resets somebody else's request). -/
+theorem rendezvous_released_on_cancel (ops : List Op) (w : Nat) (hw : w ∈ (run init ops).placed) :
+    (run init (ops ++ [.cancel w])).slot = .idle ∧ (run init (ops ++ [.cancel w])).placed = [] ∧
+    (run init (ops ++ [.timeout w])).slot = .idle ∧ (run init (ops ++ [.timeout w])).placed = [] ∧
+    (run init ops).owner = some w := by
+  obtain ⟨ho, hp, _⟩ := placed_is_owner ops w hw
+  have hd := dropWaiter_placed _ w hp
+  have hrun : ∀ o, run init (ops ++ [o]) = step (run init ops) o := fun o => run_append ops [o] init
+  rw [hrun, hrun]
+  have hc : (run init ops).placed.contains w = true := by rw [hp]; simp
+  simp only [step, timeoutWaiter, hc, ↓reduceIte]
+  exact ⟨hd.1, hd.2.1, hd.1, hd.2.1, ho⟩
+
+open Rendezvous in
+/-- cancelling a caller that is still queued (it has no guard yet) does not touch the slot -/
+theorem queued_cancel_keeps_slot (st : St) (w : Nat) (hq : st.placed.contains w = false) :
+    (step st (.cancel w)).slot = st.slot ∧ (step st (.cancel w)).placed = st.placed := by
+  simp only [step, dropWaiter, hq, Bool.false_eq_true, ↓reduceIte]
+  split <;> exact ⟨rfl, rfl⟩
+
+open Rendezvous in
+/-- **No waiter ⇒ idle**: in every reachable state in which no caller holds a guard the slot is
+`Idle` — whatever the responder did (pick-ups, deposits for requests long abandoned) and however the
+earlier waiters ended. -/
+theorem rendezvous_idle_when_no_waiter (ops : List Op) (h : (run init ops).placed = []) :
+    (run init ops).slot = .idle ∧ (run init ops).owner = none := by
+  have hi := inv_reach ops
+  by_cases hs : (run init ops).slot = .idle
+  · exact ⟨hs, (hi.1 hs).2⟩
+  · obtain ⟨w, _, hp⟩ := hi.2 hs
+    rw [hp] at h; cases h
+
+open Rendezvous in
+/-- a queued caller places its request as soon as no waiter is placed -/
+theorem queued_places_when_free (ops : List Op) (v : Nat) (hfree : (run init ops).placed = [])
+    (hv : v ∈ (run init ops).queued) :
+    (step (run init ops) (.place v)).slot = .requested ∧ (step (run init ops) (.place v)).owner = some v ∧
+    (step (run init ops) (.place v)).placed = [v] := by
+  have hs := (rendezvous_idle_when_no_waiter ops hfree).1
+  have hc : (run init ops).queued.contains v = true := by simpa using hv
+  simp [step, place, hv, hs, hfree]
+
+open Rendezvous in
+/-- **the next caller gets the slot**: after any history, once the placed waiter is cancelled (or
+timed out) any queued caller places its request -/
+theorem queued_places_after_cancel (ops : List Op) (w v : Nat) (hw : w ∈ (run init ops).placed)
+    (hv : v ∈ (run init ops).queued) :
+    (run init (ops ++ [.cancel w, .place v])).slot = .requested ∧
+    (run init (ops ++ [.cancel w, .place v])).owner = some v ∧
+    (run init (ops ++ [.cancel w, .place v])).placed = [v] := by
+  obtain ⟨_, hp, _⟩ := placed_is_owner ops w hw
+  have h1 : run init (ops ++ [.cancel w]) = step (run init ops) (.cancel w) := run_append ops _ init
+  have hfree : (run init (ops ++ [.cancel w])).placed = [] := by
+    rw [h1]; exact (dropWaiter_placed _ w hp).2.1
+  have hq : v ∈ (run init (ops ++ [.cancel w])).queued := by
+    rw [h1]; show v ∈ (dropWaiter _ w).queued
+    rw [(dropWaiter_placed _ w hp).2.2]; exact hv
+  have := queued_places_when_free (ops ++ [.cancel w]) v hfree hq
+  have h2 : run init (ops ++ [.cancel w, .place v]) = step (run init (ops ++ [.cancel w])) (.place v) := by
+    have : ops ++ [Op.cancel w, Op.place v] = (ops ++ [.cancel w]) ++ [.place v] := by simp
+    rw [this]
+    exact run_append _ _ init
+  rw [h2]; exact this
+
+/-- non-vacuity on a concrete history: two callers, the first places, the responder picks the request
+up and deposits; the second stays queued while the first holds the slot (its `place` is refused); the
+first is cancelled before consuming: the slot is idle, the second places. -/
+def exHist : List Rendezvous.Op := [.arrive 1, .arrive 2, .place 1, .place 2, .pickup, .deposit]
+
+example :
+    (Rendezvous.run Rendezvous.init exHist).slot = .resolved ∧
+    (Rendezvous.run Rendezvous.init exHist).placed = [1] ∧
+    (Rendezvous.run Rendezvous.init exHist).queued = [2] ∧
+    (Rendezvous.run Rendezvous.init (exHist ++ [.cancel 1])).slot = .idle ∧
+    (Rendezvous.run Rendezvous.init (exHist ++ [.cancel 1, .place 2])).slot = .requested ∧
+    (Rendezvous.run Rendezvous.init (exHist ++ [.cancel 1, .place 2])).owner = some 2 ∧
+    (Rendezvous.run Rendezvous.init (exHist ++ [.consume 1])).slot = .idle ∧
+    -- a queued caller's cancellation leaves the request of the placed one alone
+    (Rendezvous.run Rendezvous.init (exHist ++ [.cancel 2])).slot = .resolved ∧
+    -- a deposit for a request that was abandoned meanwhile is a no-op
+    (Rendezvous.run Rendezvous.init [.arrive 1, .place 1, .pickup, .timeout 1, .deposit]).slot = .idle := by
+  decide
+
+/-! ## The PASE in-progress marker — over all histories of `Model/Rendezvous.lean`
+
+`Rendezvous.prun Rendezvous.pinit ops`: any sequence of `update_session_timeout` calls of any
+exchanges, `clear_session_timeout`, `record_pake_failure`, handler futures dropped by the executor
+(which leaves the marker as it is) and time steps. -/
+
+open Rendezvous in
+/-- in every reachable state the marker expires at most one life time (60 s) from now -/
+theorem marker_expiry_bounded (ops : List POp) (k : Marker) (h : (prun pinit ops).marker = some k) :
+    k.expiry ≤ (prun pinit ops).now + paseTimeoutMs :=
+  pinv_run ops pinit pinv_init k h
+
+open Rendezvous in
+/-- **A dead owner's marker goes stale**: after any history, if during a further segment of more than
+60 s the exchange `ex0` performs no `update_session_timeout` (its handler was dropped, or it ended),
+then no marker owned by `ex0` is live at the end of the segment — whatever else happened meanwhile. -/
+theorem dead_owner_marker_not_live (ops seg : List POp) (ex0 : Nat)
+    (hdead : ∀ o ∈ seg, o.isUpdateOf ex0 = false) (hlong : elapsed seg ≥ paseTimeoutMs + 1)
+    (k : Marker) (hk : (prun pinit (ops ++ seg)).marker = some k) (hown : k.owner = ex0) :
+    k.expired (prun pinit (ops ++ seg)).now = true := by
+  rw [prun_append] at hk ⊢
+  have h0 : OwnedBelow ex0 ((prun pinit ops).now + paseTimeoutMs) (prun pinit ops) :=
+    fun k hk _ => pinv_run ops pinit pinv_init k hk
+  have h1 := ownedBelow_run ex0 _ seg _ hdead h0 k hk hown
+  have hn := now_run seg (prun pinit ops)
+  simp only [Marker.expired, decide_eq_true_eq]
+  omega
+
+open Rendezvous in
+/-- **An expired marker of a dead owner is cleared by the next initiator**: under the hypotheses of
+`dead_owner_marker_not_live`, a `PBKDFParamRequest` of ANY exchange `ex` (`update ex true`) is refused
+with `Busy` only because of a live marker of a third exchange that is neither `ex` nor the dead one —
+never because of the dead one's marker. (False for the seeded variant C20-b, see `updateBusyFirst`.) -/
+theorem expired_marker_of_dead_owner_is_cleared (ops seg : List POp) (ex0 ex : Nat)
+    (hdead : ∀ o ∈ seg, o.isUpdateOf ex0 = false) (hlong : elapsed seg ≥ paseTimeoutMs + 1)
+    (hbusy : (update (prun pinit (ops ++ seg)) ex true).2 = .busy) :
+    ∃ k, (prun pinit (ops ++ seg)).marker = some k ∧ k.owner ≠ ex0 ∧ k.owner ≠ ex ∧
+      k.expired (prun pinit (ops ++ seg)).now = false := by
+  generalize hst : prun pinit (ops ++ seg) = st at hbusy
+  unfold update decide2 at hbusy
+  simp only at hbusy
+  split at hbusy
+  · rename_i k hc
+    obtain ⟨hm, hx⟩ := clearIfExpired_sub _ _ _ hc
+    split at hbusy
+    · rename_i hne
+      refine ⟨k, hm, ?_, by simpa using hne, hx⟩
+      intro hown
+      have := dead_owner_marker_not_live ops seg ex0 hdead hlong k (by rw [hst]; exact hm) hown
+      rw [hst, hx] at this
+      cases this
+    · cases hbusy
+  · split at hbusy <;> cases hbusy
+
+open Rendezvous in
+/-- **Quiescence of the marker**: after any history, once no `update_session_timeout` at all has run
+for more than 60 s (traffic stopped; handler futures may have been dropped at any await point), the
+marker is not live and the `PBKDFParamRequest` of any exchange is let in and makes it the owner. -/
+theorem marker_released_at_quiescence (ops seg : List POp) (ex : Nat)
+    (hquiet : ∀ o ∈ seg, o.isUpdate = false) (hlong : elapsed seg ≥ paseTimeoutMs + 1) :
+    (prun pinit (ops ++ seg)).live = false ∧
+    update (prun pinit (ops ++ seg)) ex true =
+      ({ prun pinit (ops ++ seg) with marker := some (Marker.new ex (prun pinit (ops ++ seg)).now) }, .ok) := by
+  have hl : (prun pinit (ops ++ seg)).live = false := by
+    rw [prun_append]
+    have h0 : AllBelow ((prun pinit ops).now + paseTimeoutMs) (prun pinit ops) :=
+      fun k hk => pinv_run ops pinit pinv_init k hk
+    have h1 := allBelow_run _ seg _ hquiet h0
+    have hn := now_run seg (prun pinit ops)
+    unfold PSt.live
+    cases hm : (prun (prun pinit ops) seg).marker with
+    | none => rfl
+    | some k =>
+      have := h1 k hm
+      simp only [Marker.expired, Bool.not_eq_false', decide_eq_true_eq]
+      omega
+  exact ⟨hl, update_new_of_not_live _ ex hl⟩
+
+open Rendezvous in
+/-- after `clear_session_timeout` / `record_pake_failure` there is no marker (one step, any state) -/
+theorem marker_none_after_clear_or_fail (st : PSt) :
+    (pstep st .clear).marker = none ∧ (pstep st .fail).marker = none := ⟨rfl, rfl⟩
+
+open Rendezvous in
+/-- a handler future dropped by the executor leaves the marker behind (this is why the expiry matters) -/
+theorem handler_drop_keeps_marker (st : PSt) (ex : Nat) : pstep st (.handlerDropped ex) = st := rfl
+
+/-- the seeded change C20-b: `Busy` is answered before the age of the marker is looked at -/
+def updateBusyFirst (st : Rendezvous.PSt) (ex : Nat) (new : Bool) : Rendezvous.PSt × Rendezvous.Upd :=
+  match st.marker with
+  | some k =>
+    if k.owner != ex then (st, .busy)
+    else if k.expired st.now then ({ st with marker := none }, .sessionNotFound)
+    else ({ st with marker := some (Rendezvous.Marker.new ex st.now) }, .ok)
+  | none =>
+    if new then ({ st with marker := some (Rendezvous.Marker.new ex st.now) }, .ok)
+    else (st, .sessionNotFound)
+
+/-- non-vacuity, and the witness that the theorems above separate the code from the seeded variant:
+exchange 1 sends `PBKDFParamRequest`, its handler is dropped, 60.001 s pass; exchange 2 is let in by
+`update` and becomes the owner - and is refused for good by the variant. Before the expiry exchange 2
+is answered `Busy` by both; an own `Pake1` after the expiry is answered `SessionNotFound`. -/
+def exPHist : List Rendezvous.POp := [.update 1 true, .handlerDropped 1, .tick 60001]
+def exPSt : Rendezvous.PSt := Rendezvous.prun Rendezvous.pinit exPHist
+
+example :
+    exPSt.marker.map (·.owner) = some 1 ∧ exPSt.live = false ∧
+    (Rendezvous.update exPSt 2 true).2 = .ok ∧
+    (Rendezvous.update exPSt 2 true).1.marker.map (·.owner) = some 2 ∧
+    (updateBusyFirst exPSt 2 true).2 = .busy ∧
+    (Rendezvous.update (Rendezvous.prun Rendezvous.pinit [.update 1 true, .tick 60000]) 2 true).2 = .busy ∧
+    (Rendezvous.update exPSt 1 false).2 = .sessionNotFound ∧
+    (Rendezvous.prun Rendezvous.pinit [.update 1 true, .fail]).marker = none ∧
+    Rendezvous.elapsed exPHist ≥ Rendezvous.paseTimeoutMs + 1 := by
+  decide
 
 end C20
